@@ -671,6 +671,96 @@ def _v3f(rep, src, validated, ok_struct_roots):
 # =========================================================================== run
 
 
+def _lit(e):
+    if e["k"] == "lit" and e["t"] in ("int", "float"):
+        try:
+            return float(e["v"].replace("_", ""))
+        except ValueError:
+            return None
+    if e["k"] == "path" and e["p"] in ("f64::MAX", "std::f64::MAX"):
+        return float("inf")
+    return None
+
+
+def v4(rep, src):
+    """Closed terms of the Gaussian calibration in dp_event.rs (classical analytic bound, Dwork & Roth Thm 3.22)."""
+    rep.rule(
+        "V4",
+        "gaussian_noise_multiplier(eps, delta) = clamp(sqrt(2 * ln(1.25 / delta)) / eps, 0, f64::MAX) and gaussian_noise(eps, delta, s) = clamp(gaussian_noise_multiplier(eps, delta) * s, 0, f64::MAX) "
+        "(term shapes; the clamp may only saturate, never replace a non-finite sigma by a smaller value)",
+        floor=2,
+        necessary="a smaller sigma than the classical calibration (other constants, a non-finite product mapped to 0) applies less noise than the (epsilon, delta) handed to the mechanism requires",
+    )
+    DPE = "differential_privacy/dp_event.rs"
+
+    def tail(f):
+        """tail expression with the function's plain `let x = e;` bindings substituted (so that naming an intermediate value is not a violation)"""
+        import copy
+
+        st = f.body["stmts"]
+        if not st or st[-1]["k"] != "expr" or st[-1].get("semi"):
+            return None
+        lets = {}
+        for x in st[:-1]:
+            if x["k"] == "let" and x["pat"]["k"] == "ident" and x.get("init") is not None and not x["pat"].get("mut"):
+                lets[x["pat"]["name"]] = x["init"]
+            else:
+                return None
+
+        def subst(e, depth=0):
+            if isinstance(e, list):
+                return [subst(y, depth) for y in e]
+            if not isinstance(e, dict):
+                return e
+            if e.get("k") == "path" and len(e.get("segs", [])) == 1 and e["segs"][0] in lets and depth < 6:
+                return subst(copy.deepcopy(lets[e["segs"][0]]), depth + 1)
+            return {k: subst(v, depth) for k, v in e.items()}
+
+        return subst(st[-1]["e"])
+
+    def clamp_of(e):
+        if e is not None and e["k"] == "mcall" and e["m"] == "clamp" and len(e["args"]) == 2 and _lit(e["args"][0]) == 0.0 and _lit(e["args"][1]) == float("inf"):
+            return e["recv"]
+        return None
+
+    def binop(e, op):
+        return (e["lhs"], e["rhs"]) if e is not None and e["k"] == "binary" and e["op"] == op else None
+
+    # multiplier
+    f = _one(src, name="gaussian_noise_multiplier", file=DPE)
+    ps = [pat_ident(p["pat"]) for p in nonself_params(f)]
+    key = "dp_event::gaussian_noise_multiplier"
+    ok = False
+    inner = clamp_of(tail(f))
+    d = binop(inner, "/") if inner is not None else None
+    if d and len(ps) == 2 and path_of(d[1]) == ps[0]:
+        sq = d[0]
+        if sq["k"] == "mcall" and sq["m"] == "sqrt":
+            m2 = binop(sq["recv"], "*")
+            if m2:
+                two, ln = (m2[0], m2[1]) if _lit(m2[0]) is not None else (m2[1], m2[0])
+                if _lit(two) == 2.0 and ln["k"] == "mcall" and ln["m"] == "ln":
+                    q = binop(ln["recv"], "/")
+                    ok = bool(q and _lit(q[0]) == 1.25 and path_of(q[1]) == ps[1])
+    rep.instance("V4", key, {"term": show(tail(f), 160) if tail(f) is not None else show(f.body, 160), "matches": ok})
+    if not ok:
+        rep.violation("V4", key, "the noise multiplier is not clamp(sqrt(2 * ln(1.25 / delta)) / epsilon, 0, f64::MAX): %s" % show(f.body, 200), f.where())
+    # sigma
+    g = _one(src, name="gaussian_noise", file=DPE)
+    ps = [pat_ident(p["pat"]) for p in nonself_params(g)]
+    key = "dp_event::gaussian_noise"
+    ok = False
+    inner = clamp_of(tail(g))
+    m = binop(inner, "*") if inner is not None else None
+    if m and len(ps) == 3:
+        a, b = m
+        call, sens = (a, b) if a["k"] == "call" else (b, a)
+        ok = is_call_to(call, "gaussian_noise_multiplier") and [path_of(x) for x in call["args"]] == ps[:2] and path_of(sens) == ps[2]
+    rep.instance("V4", key, {"term": show(tail(g), 160) if tail(g) is not None else show(g.body, 160), "matches": ok})
+    if not ok:
+        rep.violation("V4", key, "sigma is not clamp(gaussian_noise_multiplier(epsilon, delta) * sensitivity, 0, f64::MAX): %s" % show(g.body, 200), g.where())
+
+
 def run(rep):
     rep.explanation = (
         "Static flow / term rules for 'privacy loss is never under-reported'. V1 (type-checked MIR of every body of crate qrlew that can return an event): "
@@ -679,14 +769,16 @@ def run(rep):
         "V2 (syn AST): at the two mechanism sites (gaussian_mechanisms, tau_thresholding_values) the (epsilon, delta) that calibrate sigma / tau are <= those of the event built there, one event per noised column. "
         "V3 (syn AST): the shares handed down by Reduce::differentially_private are P*s and P*(1-s) (1 when no key-release budget was spent), from_dp_parameters multiplies by the share, "
         "split divides by max(n,1) with n the number of sub-aggregations, and every other hand-off passes the budget unchanged or smaller. "
-        "NOT decided: the Gaussian calibration formula and tau formula (numeric), over-reporting, degenerate parameters (epsilon = inf is recorded as NoOp, shares outside [0,1]), "
-        "that an event reaches the return value on *every* path (V1 is may-reach per origin), and flows hidden behind `dyn` calls."
+        "V4 (syn AST): sigma and the noise multiplier have the classical closed form sqrt(2 ln(1.25/delta))/epsilon * sensitivity, clamped only upwards-saturating. "
+        "NOT decided: that the classical calibration is tight (numeric), the tau formula (C04/K6), over-reporting, degenerate parameters (epsilon = inf is recorded as NoOp, shares outside [0,1]), "
+        "and flows hidden behind `dyn` calls."
     )
     src = Src(facts.src_facts())
     mir = Mir(facts.mir_facts())
     v1(rep, src, mir)
     v2(rep, src)
     v3(rep, src)
+    v4(rep, src)
     rep.assume("MIR facts are those of `cargo check --lib` with default features (cfg(test) code is not analysed)")
     rep.assume("a call whose arguments hold no event and whose result type can hold one produces a fresh event (origin); calls with event arguments propagate them")
     rep.assume("the share field tau_thresholding_share lies in [0,1] and counts are >= 1 where stated (guard or iteration checked)")
